@@ -4,6 +4,7 @@ import (
 	"bytes"
 	"errors"
 	"fmt"
+	"math/big"
 	"regexp"
 	"strconv"
 	"strings"
@@ -663,7 +664,17 @@ func parseNumberLiteral(literal string) (value interface{}, err error) { //nolin
 	// TODO Is Uint okay? What about -MAX_UINT
 	value, err = strconv.ParseInt(literal, 0, 64)
 	if err == nil {
+		if integer := value.(int64); integer > 1<<53 || integer < -(1<<53) {
+			return float64(integer), nil // the Number value (binary64) for the literal
+		}
 		return value, nil
+	}
+	if errors.Is(err, strconv.ErrRange) && len(literal) > 1 && literal[0] == '0' && literal[1] != '.' && literal[1] != 'e' && literal[1] != 'E' {
+		// A hexadecimal or legacy octal literal beyond 64 bits: convert the exact integer, rounding once.
+		if integer, ok := new(big.Int).SetString(literal, 0); ok {
+			number, _ := new(big.Float).SetInt(integer).Float64()
+			return number, nil
+		}
 	}
 
 	parseIntErr := err // Save this first error, just in case
